@@ -221,6 +221,9 @@ func init() {
 		Prop: "C20", Name: "purity/convert", Quick: 30000, Thorough: 300000, Shards: 4,
 		Rule: "a (value, target type) conversion request (C08 generator; values with nulls, unknowns and marks) repeated 4 times: same outcome and RawEqual results, input fingerprint unchanged. Non-trivial = the conversion succeeded and the value has members",
 		Gen: func(t *rapid.T) convgen.Case {
+			if rapid.IntRange(0, 4).Draw(t, "composed") == 0 {
+				return convgen.Composed(t)
+			}
 			return convgen.Pair(convgen.Opts{Val: gen.ValOpts{Null: true, Unknown: true, Marks: true, Simple: true}}).Draw(t, "case")
 		},
 		Check: func(c *facet.Ctx, in convgen.Case) error {
@@ -229,6 +232,11 @@ func init() {
 				return facet.Failf("harness-build", "%v", err)
 			}
 			ty := in.Target.Cty()
+			for _, e := range in.Edits {
+				if e == "composed" {
+					c.Label("composed-members")
+				}
+			}
 			fp := fingerprint(v)
 			type res struct {
 				v   cty.Value
